@@ -106,6 +106,9 @@ func (p *storeProp) Gen(r *Rand, tier string, idx int) any {
 		sp.ForceCAS = r.Chance(0.3)
 		sp.IgnoreNoName = r.Chance(0.2)
 	}
+	if sp.Kind == "oci" && (p.id == "C09" || p.id == "C08" || p.id == "C07") && r.Chance(0.08) {
+		o.Wide, o.MaxNodes = true, 26 // multi-platform indexes: load and GC walk many sibling manifests at once
+	}
 	sp.Graph = *GenGraph(r, o)
 	g := sp.Graph.Build()
 	nn := len(g.Nodes)
